@@ -58,6 +58,11 @@ def install(eng):
                 if any(a.eq(v) for a in t.children()) and all(a.eq(v) or not _mentions(a, v) for a in t.children()):
                     found.setdefault(t.decl().name(), t)
             stack.extend(t.children())
+        local = {k: t for k, t in found.items() if '!' in k}
+        if local:
+            # facts about a local (havocked / returned) sequence are triggered by terms of that sequence only;
+            # using the ghost layout arrays as triggers too creates matching loops
+            found = local
         return list(found.values()) or None
 
     def _mentions(t, v):
